@@ -949,6 +949,8 @@ class GroundTruth(WireTracker):
                 g["failed"] = True
         elif k in ("env_eof", "env_reset"):
             self.conn(ev[2])["env_closed"] = ev[1]
+        elif k == "env_garbage":
+            self.conn(ev[2]).setdefault("garbage", ev[1])     # a frame after which the connection can only be ended
         elif k == "close":
             g = self.conn(ev[2])
             if g["node_closed"] is None or g["plan"] == "refused":
@@ -976,11 +978,11 @@ class GroundTruth(WireTracker):
                 g["dpr_out"] = True
 
     def live(self, g):
-        return g["established"] is not None and g["node_closed"] is None and g["env_closed"] is None and not g["failed"]
+        return g["established"] is not None and g["node_closed"] is None and g["env_closed"] is None and not g["failed"] and g.get("garbage") is None
 
     def open_for_node(self, g):
         """The node has not closed it (it may not have noticed a peer close yet - it has, at quiescence)."""
-        return g["node_closed"] is None and not g["failed"]
+        return g["node_closed"] is None and not g["failed"] and g.get("garbage") is None
 
 
 class ReconnectMonitor(GroundTruth):
@@ -1023,6 +1025,13 @@ class ReconnectMonitor(GroundTruth):
                     g["dpa_sent"] = True
                 if f.h.is_request and f.h.code not in (257, 280, 282) and (g["dpr_in"]):
                     vs.append(("dpr:request-routed-to-a-connection-after-its-DPR", f"socket {sid}: {f!r}"))
+            elif k == "env_garbage":
+                # a frame that can only make the node end the connection: the peer's connection is lost from this instant on, whether or
+                # not the node gets round to closing the socket
+                g = self.conn(ev[2])
+                if (g["kind"] == "dialled" or g["identified"]) and g["peer"] is not None and g["garbage"] == ev[1] and \
+                        g["established"] is not None and g["node_closed"] is None and g["env_closed"] is None and not g["failed"]:
+                    self.lost[g["peer"]] = (ev[1], g["dpr_in"])
             elif k in ("close", "env_eof", "env_reset", "env_resolve", "connect"):
                 sid = ev[2]
                 g = self.conn(sid)
